@@ -630,8 +630,13 @@ fn check_lsh(c: &LshCase, obs: &mut Obs) -> CheckResult {
     }
     let (bd, dist) = vo::lsh_bucket_with_distances(&c.v, c.table, c.nh);
     let r64 = ref_bucket_f64(&widen(&c.v), c.table, c.nh);
-    if bd != r64 {
-        fails.push(Fail::new("lsh_bucket_with_distances_differs_from_reference", format!("bucket = {bd:#b}, reference {r64:#b}; {}", ctx())));
+    // the bucket reported next to the distances is the bucket of the vector (the one lsh_bucket names);
+    // while finding K_MP was open it was the f64-accumulated variant
+    if bd != r32 {
+        fails.push(tag(
+            Fail::new("lsh_bucket_with_distances_differs_from_reference", format!("bucket = {bd:#b}, reference {r32:#b} (f64-accumulated {r64:#b}); {}", ctx())),
+            (bd == r64 && r32 != r64).then_some(K_MP),
+        ));
     }
     let bq = vo::lsh_bucket_int8(&c.q, c.table, c.nh);
     let rq = ref_bucket_f64(&widen_i8(&c.q), c.table, c.nh);
@@ -740,7 +745,8 @@ impl LKey {
     /// the same two values from R7
     fn reference(&self) -> (i64, i64) {
         match &self.v {
-            KVec::F(v) => (ref_bucket_f32(v, self.table, self.nh), ref_bucket_f64(&widen(v), self.table, self.nh)),
+            // both entry points name the same bucket (the one the vector is filed under)
+            KVec::F(v) => (ref_bucket_f32(v, self.table, self.nh), ref_bucket_f32(v, self.table, self.nh)),
             KVec::I(v) => {
                 let r = ref_bucket_f64(&widen_i8(v), self.table, self.nh);
                 (r, r)
